@@ -116,8 +116,11 @@ def unit_derivation_body(run, tree):
     for n in walk_no_nested(f.fi.node):
         if isinstance(n, ast.Call) and is_name(n.func, f.FUNC) and ct._is_units_call(f, n):
             kw_ok = True
+            out_removed = any(isinstance(c, ast.Call) and isinstance(c.func, ast.Attribute) and is_name(c.func.value, f.KW) and
+                              c.func.attr == "pop" and c.args and const_value(c.args[0]) == "out" and c.lineno < n.lineno
+                              for c in walk_no_nested(f.fi.node))
             for k in n.keywords:
-                if k.arg is None and isinstance(k.value, ast.Name) and k.value.id == f.KW:
+                if k.arg is None and isinstance(k.value, ast.Name) and k.value.id == f.KW and not out_removed:
                     kw_ok = False  # forwards out= (an Array) into a call on Quantities
             run.ob(ct.ARRAY + "._wrap_numpy::unit-derivation-kwargs", kw_ok, f.fi.where(n),
                    "the unit derivation call %s the raw kwargs" % ("filters" if kw_ok else "forwards"),
